@@ -26,17 +26,17 @@ CHECKS = {
    design="5/C13", technique="Coq proof (corollary of the compaction algebra) + extracted-model differential tie",
    note="as C07"),
  "C01": dict(
-   text="Coq theorems for ALL inputs up to the block level: varint, key codec, the four record codecs, and whole blocks (any records the block writer accepted, any block size / restart interval / hash size / block type incl. zlib, read back record for record with the correct next-block distance). The table level (sections, padding, index, object index, header/footer/CRC) is modelled function by function and tied BYTE-FOR-BYTE to the Go writer and reader on every run; its proof is in progress (see DESIGN.md)",
-   design="5/C01", technique="Coq proof (round-trip lemmas bottom-up, block invariant) + byte-exact extracted-model tie",
-   note="zlib is an oracle with a stated round-trip hypothesis; table-level theorem not yet in the build: that part rests on the tie (differential testing)"),
+   text="Coq theorem C01_roundtrip over the faithful writer and reader models: for ANY sorted refs and logs in the documented domain, ANY configuration (block size, restart interval, padded / unaligned, object index or not, both hash sizes, exact or normalised messages) and limits, if the writer accepts them then opening the bytes and scanning returns exactly those refs and exactly those (normalised) logs -- through all sections, padding, index levels, the object index, header/footer/CRC and the log-block window retry. Plus the layers below it (varint, key, four record codecs, whole blocks). Tied on every run: Go writer bytes = model bytes byte-for-byte, every scan/seek/RefsFor result equal; unit tie of the block writer at the restart cap",
+   design="5/C01", technique="Coq proof (bottom-up round trips, block invariant, table layout invariant) + byte-exact extracted-model tie",
+   note="zlib is an oracle with three stated hypotheses (round trip with exact length; truncated stream reports truncation; no blow-up beyond 2^30), proved satisfiable by a Gallina stored codec; table size < 2^64; block size 0 or 64..2^24"),
  "C02": dict(
-   text="Coq theorem: within every block the writer produces, seek (binary search over restart keys + scan) lands exactly before the first record >= k for EVERY key; log key order/injectivity proved. Table-level seek (linear across blocks, multi-level index descent) is modelled as coded and tied to the Go reader on all key equivalence classes per generated table (0..3 index levels, multi-block top level); proof of that level in progress",
-   design="5/C02", technique="Coq proof (block seek) + extracted-model tie over key equivalence classes",
-   note="as C01; index descent proved terminating for ALL byte strings (C18), its functional correctness rests on the tie"),
+   text="Coq theorems C02_seek_ref / C02_seek_log over the same models: for every table the writer produces (no index, one or several levels, multi-block top level, any block size / padding / restart interval) and EVERY key, SeekRef / SeekLog followed by iteration yields exactly the scan suffix from the first record >= key and never fails; block-level seek theorem; log key order and injectivity. The proof found that SeekLog of the zero-record key rewound the section (fixed). Tied on every run over all key equivalence classes",
+   design="5/C02", technique="Coq proof (block seek + index descent by induction over levels) + extracted-model tie over key equivalence classes",
+   note="as C01"),
  "C11": dict(
-   text="Coq theorem: Merged.RefsFor with its double check = filter (points_to oid) of the stack's live view, for ALL stacks and object ids (raw and suppressing view). Single-table RefsFor (object index construction, abbreviation, truncated position lists, linear fallback, update index) is modelled as coded and tied to the Go code per generated table / object id",
-   design="5/C11", technique="Coq proof (stack level) + extracted-model tie (table level)",
-   note="table-level RefsFor correctness rests on the tie; per-table hits are those of the model reader"),
+   text="Coq theorems: C11_table -- for every written table (object index present / absent / position lists dropped / multi-block with its own index) and EVERY object id, RefsFor = filter (points_to oid) of the refs, in name order with absolute update indices; C11_merged -- Merged.RefsFor with its double check = the live refs of the stack's view pointing at oid, never a ref deleted or re-pointed in a newer table. Tied on every run: tables per object id (occurring, prefix-sharing, absent) and stacks of 1..6 real tables",
+   design="5/C11", technique="Coq proof (object-index invariant of the writer + abbreviation injectivity + seek theorem; overlay algebra for stacks) + extracted-model tie",
+   note="as C01; table size < 2^59 (the footer has 59 bits for the object-section position); the stack-level theorem is over decoded tables"),
  "C14": dict(
    category="translation_validation",
    text="every file the implementation emits (C01 tables, tables written by Add and by compaction in C07/C13 histories) is judged on every run by the extracted independent spec decoder (header copy, CRC-32, positions, zero padding, restart tables, key order, every index level vs its children, object index vs ref blocks, update-index range) and its decoded records are compared with the source records; the Coq part proves properties of the judge and the byte-exact writer model is the same function the C01 proofs are about",
